@@ -227,7 +227,7 @@ int main(int argc, char **argv)
 		}
 		{
 			sqfs_u64 ref;
-			static const char *junk[] = { "", "/", "a", "//a//b", "sub/deep/n000", "f1/x", ".", ".." };
+			static const char *junk[] = { "", "/", "a", "//a//b", "sub/deep/n000", "f1/x", ".", "..", "xlink/x", "link/x" };
 			for (i = 0; i < sizeof(junk) / sizeof(junk[0]); ++i) {
 				char *q = strdup(junk[i]);
 				chk(sqfs_dir_reader_resolve_path(dr, q, NULL, &ref));
